@@ -571,6 +571,10 @@ def units():
     us.append(('C07/TorState.stream_failed', unit_stream_gone('stream_failed')))
     for w in ('circuit_new', 'circuit_launched', 'circuit_destroy'):
         us.append(('C07/TorState.%s' % w, unit_circuit_table(w)))
+    # closed or failed circuits are gone from the table whichever reason keywords the event carries (units shared with C08)
+    for wh in ('circuit_closed', 'circuit_failed'):
+        for nm, shp in (('reason', ('REASON',)), ('no_reason', ()), ('both_reasons', ('REASON', 'REMOTE_REASON')), ('remote_reason_only', ('REMOTE_REASON',))):
+            us.append(('C07/TorState.%s@%s' % (wh, nm), K.unit_destroy(wh, shp)))
     us.append(('C07/TorState.router_from_id@in_consensus', unit_router_from_id(True)))
     us.append(('C07/TorState.router_from_id@not_in_consensus', unit_router_from_id(False)))
     for kind in ('circuit', 'stream'):
